@@ -13,6 +13,7 @@ import (
 	"google.golang.org/protobuf/internal/impl"
 	"google.golang.org/protobuf/proto"
 	"google.golang.org/protobuf/reflect/protoreflect"
+	"google.golang.org/protobuf/runtime/protoimpl"
 	"google.golang.org/protobuf/verif/core"
 	"google.golang.org/protobuf/verif/gen"
 
@@ -64,6 +65,46 @@ func init() {
 		}
 		c29Builders[bm.Type.Out(0).String()] = t // "*pkg.T" -> builder struct type
 	}
+}
+
+// structPtrOf returns the pointer to the Go struct behind a message (for
+// legacy messages: the v1 struct behind the runtime's wrapper).
+func structPtrOf(m protoreflect.Message) reflect.Value {
+	var v any = m.Interface()
+	if _, isWrapper := v.(interface{ ProtoReflect() protoreflect.Message }); isWrapper {
+		rv := reflect.ValueOf(v)
+		if rv.Kind() == reflect.Ptr && rv.Elem().Kind() == reflect.Struct && rv.Elem().NumField() > 0 && hasProtobufTags(rv.Elem().Type()) {
+			return rv
+		}
+	}
+	var v1 any
+	if !protoTry(func() { v1 = protoimpl.X.ProtoMessageV1Of(m.Interface()) }) || v1 == nil {
+		return reflect.Value{}
+	}
+	rv := reflect.ValueOf(v1)
+	if rv.Kind() == reflect.Ptr && rv.Elem().Kind() == reflect.Struct {
+		return rv
+	}
+	return reflect.Value{}
+}
+
+func hasProtobufTags(t reflect.Type) bool {
+	for i := 0; i < t.NumField(); i++ {
+		if t.Field(i).Tag.Get("protobuf") != "" || t.Field(i).Tag.Get("protobuf_oneof") != "" {
+			return true
+		}
+	}
+	return false
+}
+
+func protoTry(f func()) (ok bool) {
+	defer func() {
+		if recover() != nil {
+			ok = false
+		}
+	}()
+	f()
+	return true
 }
 
 // tagNumber extracts the field number of a `protobuf:"kind,N,..."` struct tag.
@@ -121,13 +162,13 @@ func (k *c29mat) toGo(route string, fd protoreflect.FieldDescriptor, v protorefl
 		if t.Kind() != reflect.Ptr || t.Elem().Kind() != reflect.Struct {
 			return reflect.Value{}, false
 		}
-		pm, ok := reflect.New(t.Elem()).Interface().(proto.Message)
-		if !ok {
+		var pm proto.Message
+		if !protoTry(func() { pm = protoimpl.X.ProtoMessageV2Of(reflect.New(t.Elem()).Interface()) }) || pm == nil {
 			return reflect.Value{}, false
 		}
 		built := k.materialise(route, pm.ProtoReflect().Type(), v.Message())
-		rv := reflect.ValueOf(built.Interface())
-		if !rv.Type().AssignableTo(t) {
+		rv := structPtrOf(built)
+		if !rv.IsValid() || !rv.Type().AssignableTo(t) {
 			return reflect.Value{}, false
 		}
 		return rv, true
@@ -295,8 +336,8 @@ func (k *c29mat) setViaSetter(route string, dst protoreflect.Message, fd protore
 }
 
 func (k *c29mat) setStructField(route string, dst protoreflect.Message, fd protoreflect.FieldDescriptor, v protoreflect.Value) bool {
-	rv := reflect.ValueOf(dst.Interface())
-	if rv.Kind() != reflect.Ptr || rv.Elem().Kind() != reflect.Struct {
+	rv := structPtrOf(dst)
+	if !rv.IsValid() || rv.Kind() != reflect.Ptr || rv.Elem().Kind() != reflect.Struct {
 		return false
 	}
 	st := rv.Elem()
